@@ -15,7 +15,7 @@ use vpmodel::spec::{mono, ChainSpec};
 pub const DEF: PropDef = PropDef {
     id: "C09",
     level: "exploration",
-    rule: "part 'complete': consistent chains on all 8 coins (real genesis block for 7; NoteBlockchain only with --start>=1) whose blocks hold 1..300 txs covering every merkle tree shape class (powers of two, 2^k+-1, odd at several levels), any --start/--end: with --verify the run must exit 0 and produce exactly the output of the run without --verify. part 'faults': one fault operator applied to block h: single-bit flip in (a) non-witness tx bytes, (b) the merkle field, (c) the prev field; (d) block replaced by a block of a foreign chain or by a copy of the coin's own genesis block; (e) another coin's genesis block at height 0; (f) synthetic block at height 0. If h is in the processed range the run must exit non-zero, name no other height than h in 'Error at height', and leave no final-named file; if h is outside the range the run must succeed with unchanged output. Non-trivial = fault at h>start (prev taken from the index), at h==start>0 (retained start-1 record), or a consistent block with >=3 txs; distinct by (tree-shape class, fault kind, position class, coin).",
+    rule: "part 'complete': consistent chains on all 8 coins (real genesis block for 7; NoteBlockchain only with --start>=1) whose blocks hold 1..300 txs covering every merkle tree shape class (powers of two, 2^k+-1, odd at several levels), any --start/--end: with --verify the run must exit 0 and produce exactly the output of the run without --verify. part 'faults': one fault operator applied to block h: single-bit flip in (a) non-witness tx bytes, (b) the merkle field, (c) the prev field; (d) block replaced by a block of a foreign chain or by a copy of the coin's own genesis block; (e) another coin's genesis block at height 0; (f) synthetic block at height 0. If h is in the processed range the run must exit non-zero, name no other height than h in 'Error at height', and leave no final-named file; if h is outside the range the run must succeed with unchanged output. part 'every-bit-of-one-block': every single-bit flip of the merkle field, the prev field and all transaction bytes of the last block of a two-block chain, which ends its blk file (coinbase-only block in the quick tier, three transactions in the thorough tier). Non-trivial = fault at h>start (prev taken from the index), at h==start>0 (retained start-1 record), or a consistent block with >=3 txs; distinct by (tree-shape class, fault kind, position class, coin).",
     assumptions: &["header fields other than merkle root and prev hash are not claimed by the statement and are not faulted", "fault cases use legacy transactions and non-AuxPoW blocks so that every tx byte is covered by a txid"],
     run,
     replay,
@@ -240,7 +240,7 @@ pub fn check(c: &Case) -> Verdict {
 
 /// thorough tier: every single-bit flip of the merkle and prev fields and of all tx bytes of a
 /// small block (exhaustive over bit positions for that block)
-fn all_flips(seed: u64) -> Vec<Case> {
+fn all_flips(seed: u64, ntx: usize) -> Vec<Case> {
     use proptest::strategy::ValueTree;
     use proptest::test_runner::{Config, RngAlgorithm, TestRng, TestRunner};
     let mut s = [7u8; 32];
@@ -249,13 +249,18 @@ fn all_flips(seed: u64) -> Vec<Case> {
     let mut cfg = chain_cfg(Tier::Quick, true);
     cfg.coin = Just(Coin::Bitcoin).boxed();
     cfg.nblocks = Just(2usize).boxed();
-    cfg.ntx = Just(2usize).boxed();
+    cfg.ntx = Just(ntx).boxed();
     let chain = gen::chain(&cfg).new_tree(&mut runner).unwrap().current();
     let built = chain.build();
     let mut v = Vec::new();
-    // block index 1 of the built chain (height 1): h selector must map to it
-    let len = built.blocks[1].1.ser().len();
-    let mk = |kind, nbits: usize, k: usize| Case { chain: chain.clone(), start: 0, end: None, fault: Some(Fault { kind, h: match kind { FaultKind::PrevBit => 0, _ => 0x5556 }, bit: (((k as u64) << 32) / nbits as u64 + 1).min(u32::MAX as u64) as u32 }), cb: Callback::CsvDump };
+    // the LAST block of the built chain (it ends the blk file): the h selectors must map to it
+    let n = built.blocks.len();
+    let target = n - 1;
+    let len = built.blocks[target].1.ser().len();
+    let sel = |idx: usize, of: usize| (((idx as u64) * 65536 + of as u64 - 1) / of as u64) as u16;
+    let (h_any, h_prev) = (sel(target, n), sel(target - 1, n - 1));
+    assert!(mono(h_any, n) == target && 1 + mono(h_prev, n - 1) == target);
+    let mk = |kind, nbits: usize, k: usize| Case { chain: chain.clone(), start: 0, end: None, fault: Some(Fault { kind, h: match kind { FaultKind::PrevBit => h_prev, _ => h_any }, bit: (((k as u64) << 32) / nbits as u64 + 1).min(u32::MAX as u64) as u32 }), cb: Callback::CsvDump };
     for k in 0..256 {
         v.push(mk(FaultKind::MerkleBit, 256, k));
         v.push(mk(FaultKind::PrevBit, 256, k));
@@ -272,9 +277,9 @@ fn run(eng: &Engine, a: &Args) {
     let tier = a.tier;
     eng.explore("complete", scaled(nc, a), move || strategy(tier, false), check);
     eng.explore("faults", scaled(nf, a), move || strategy(tier, true), check);
-    if a.tier == Tier::Thorough {
-        eng.enumerate("every-bit-of-one-block", all_flips(a.seed), check);
-    }
+    // every bit of the LAST block of a two-block chain (a flipped length or count there makes the parser run
+    // into the end of the blk file): a coinbase-only block in the quick tier, a three-transaction block in the thorough tier
+    eng.enumerate("every-bit-of-one-block", all_flips(a.seed, if a.tier == Tier::Thorough { 2 } else { 0 }), check);
 }
 
 fn replay(part: &str, case: serde_json::Value) -> Option<Verdict> {
